@@ -9,4 +9,8 @@ cargo build --offline --profile verifrel --bin c04w
 for f in "core" "core,utf8" "utf8" ""; do
   cargo build --offline --profile verif -p vparsecfg --no-default-features --features "$f"
 done
+# C05 / C08 workers: anstyle without `std`, anstream without its default features
+for f in style stream; do
+  cargo build --offline --profile verif -p vfeat --no-default-features --features "$f"
+done
 echo "setup done"
